@@ -409,7 +409,9 @@ func (sv *Solver) solveUncached(text, key string, canary bool) SolveResult {
 	t0 := time.Now()
 	res := sv.race(file, canary)
 	res.Millis = time.Since(t0).Milliseconds()
-	if !sv.noCache && (res.Status == "unsat" || res.Status == "sat") {
+	// only answers that cost something are worth a file: the bulk of the goals is decided in a few milliseconds, and caching
+	// every one of them grew the cache to millions of files
+	if !sv.noCache && (res.Status == "unsat" || res.Status == "sat") && res.Millis >= 150 {
 		os.MkdirAll(filepath.Dir(cfile), 0o755)
 		os.WriteFile(cfile, []byte(fmt.Sprintf("%s %s %d\n", res.Status, res.Solver, res.Millis)), 0o644)
 	}
